@@ -3,6 +3,7 @@ import argparse
 import hashlib
 import json
 import os
+import re
 import shutil
 import subprocess
 import sys
@@ -201,6 +202,27 @@ def load_findings(pid):
     with open(path) as f:
         data = json.load(f)
     return [e for e in data.get("findings", []) if e.get("property") == pid]
+
+
+def entry_matches(e, rule, sig):
+    """Does known-finding entry e describe the violation (rule, sig)?
+
+    An entry names either one exact signature ({"rule", "where"}) or a *family* ({"rule_regex", "where_regex"},
+    both full-match): every way in which one recorded root cause shows for one class of failing input (DESIGN
+    11.3, "signature families"). Families exist only where the defect cannot be repaired under the rules and the
+    exact signatures proved not to be a closed set across seeds."""
+    g = e["signature"]
+    if "rule" in g:
+        return g["rule"] == rule and g["where"] == sig
+    return re.fullmatch(g["rule_regex"], rule) is not None and re.fullmatch(g["where_regex"], sig) is not None
+
+
+def find_open(findings, rule, sig):
+    exact = [f for f in findings if f["status"] == "open" and "rule" in f["signature"] and entry_matches(f, rule, sig)]
+    if exact:
+        return exact[0]
+    fam = [f for f in findings if f["status"] == "open" and "rule" not in f["signature"] and entry_matches(f, rule, sig)]
+    return fam[0] if fam else None
 
 
 def run_replay(bindir, binname, path, outdir, timeout=600):
@@ -415,23 +437,19 @@ def main(argv):
     for e in findings:
         w = os.path.join(VERIF, e["witness"])
         sigs, out, rok = run_replay(bindir, binname, w, os.path.join(paths.run, "pinned-" + e["id"]))
-        want = (e["signature"]["rule"], e["signature"]["where"])
         if not rok:
             inconclusive.append("pinned witness %s did not complete" % e["id"])
             continue
         if e["status"] == "open":
-            if want in sigs:
+            if any(entry_matches(e, s[0], s[1]) for s in sigs):
                 out_lines.append("KNOWN-FINDING: property=%s %s [%s]" % (pid, e["what"], e["id"]))
                 known_hits.setdefault(e["id"], 0)
             else:
                 out_lines.append("NOTE property=%s known finding %s no longer reproduces on this tree" % (pid, e["id"]))
-            for s in sigs:
-                if s != want and not any((f["signature"]["rule"], f["signature"]["where"]) == s and f["status"] == "open" for f in findings):
-                    new_violations.append((s[0], s[1], w))
-        else:  # fixed: suppresses nothing
-            for s in sigs:
-                if not any((f["signature"]["rule"], f["signature"]["where"]) == s and f["status"] == "open" for f in findings):
-                    new_violations.append((s[0], s[1], w))
+        # whatever else a witness shows is judged like any other observation (fixed entries suppress nothing)
+        for s in sigs:
+            if find_open(findings, s[0], s[1]) is None:
+                new_violations.append((s[0], s[1], w))
 
     # ---- generated workload
     timeout = spec.get("timeout", {}).get(args.tier, 900 if args.tier == "quick" else 6 * 3600)
@@ -483,7 +501,7 @@ def main(argv):
             m["violations"].extend(fm["violations"])
             inconclusive.extend("flavour %s: %s" % (fl, p) for p in fproblems)
 
-    open_sigs = {(f["signature"]["rule"], f["signature"]["where"]): f for f in findings if f["status"] == "open"}
+    family_sigs = {}
     first_file = {}
     for v in m["violations"]:
         key = (v["rule"], v["sig"])
@@ -491,11 +509,14 @@ def main(argv):
             first_file[key] = v["file"]
     for key_s, count in m["per_sig"].items():
         rule, sig = key_s.split("|", 1)
-        if (rule, sig) in open_sigs:
-            fid = open_sigs[(rule, sig)]["id"]
+        hit = find_open(findings, rule, sig)
+        if hit is not None:
+            fid = hit["id"]
             known_hits[fid] = known_hits.get(fid, 0) + count
-            if not any(fid in l for l in out_lines):
-                out_lines.append("KNOWN-FINDING: property=%s %s [%s]" % (pid, open_sigs[(rule, sig)]["what"], fid))
+            if "rule" not in hit["signature"]:
+                family_sigs.setdefault(fid, {})[key_s] = count
+            if not any("[%s]" % fid in l for l in out_lines):
+                out_lines.append("KNOWN-FINDING: property=%s %s [%s]" % (pid, hit["what"], fid))
         else:
             src = first_file.get((rule, sig))
             dst = None
@@ -531,6 +552,7 @@ def main(argv):
         "maxima": m["maxima"],
         "must_observe": {k: {"min": v, "observed": m["counters"].get(k, 0)} for k, v in sorted(m["musts"].items())},
         "known_finding_hits": known_hits,
+        "known_family_signatures": family_sigs,
         "new_violation_signatures": sorted(set("%s|%s" % (r, s) for r, s, _ in new_violations)),
         "inconclusive_reasons": inconclusive,
         "shards": nshards,
